@@ -812,11 +812,8 @@ MUTANTS = [
                    "except TypeError:"), 'from_base64'),
     Mutant('hex-unguarded', 'R3', 'fire', _BI,
            in_func('ByteArray.from_hex',
-                   r"        try:\n            return \(unhexlify\(_bytes_join"
-                   r"\(value\)\),\)\n        except \(TypeError, ValueError\)"
-                   r":\n            raise ValidationError\(value\)",
-                   "        return (unhexlify(_bytes_join(value)),)",
-                   regex=True), 'from_hex'),
+                   "        except (TypeError, ValueError):",
+                   "        except TypeError:"), 'from_hex'),
     Mutant('time-ctor-unguarded', 'R3', 'fire', _I,
            in_func('InProtocolBase.time_from_unicode',
                    r"        try:\n            return time\((.*?)microsec\)\n"
